@@ -82,6 +82,59 @@ theorem tableSecs_ne_nil (x : XrefMap) (size : Nat) : tableSecs x size ≠ [] :=
   rw [h] at this
   simp [assigns, assignsFrom] at this
 
+theorem XTable_keys_insert (t : XTable) (k : Nat) (v : XEntry) :
+    (t.insert k v).map (·.1) = if k ∈ t.map (·.1) then t.map (·.1) else t.map (·.1) ++ [k] := by
+  induction t with
+  | nil => simp [XTable.insert]
+  | cons p rest ih =>
+    obtain ⟨q, w⟩ := p
+    by_cases h : q = k
+    · subst h; simp [XTable.insert]
+    · have h' : ¬ k = q := fun e => h e.symm
+      simp only [XTable.insert, h, if_false, List.map_cons, ih, List.mem_cons, h', false_or]
+      split <;> simp
+
+theorem XTable_insert_nodup (t : XTable) (k : Nat) (v : XEntry) (h : (t.map (·.1)).Nodup) :
+    ((t.insert k v).map (·.1)).Nodup := by
+  rw [XTable_keys_insert]
+  split
+  · exact h
+  · rename_i hk
+    rw [List.nodup_append]
+    refine ⟨h, by simp, ?_⟩
+    intro a ha b hb
+    simp at hb
+    subst hb
+    intro e; subst e; exact hk ha
+
+theorem applyAssigns_nodup : ∀ (l : List (Nat × Option (Nat × Nat))) (t : XTable),
+    (t.map (·.1)).Nodup → ((applyAssigns t l).map (·.1)).Nodup := by
+  intro l
+  induction l with
+  | nil => intro t h; exact h
+  | cons p rest ih =>
+    intro t h
+    obtain ⟨k, e⟩ := p
+    cases e with
+    | none => exact ih t h
+    | some v => obtain ⟨off, g⟩ := v; exact ih _ (XTable_insert_nodup t k _ h)
+
+/-- the table `xref` builds from a written table, explicitly -/
+theorem xref_table_parse (x : XrefMap) (size : Nat) (rest : Bytes)
+    (hx : XrefMapOk x) (hs : size ≤ 4294967295) (hr : NoDigitAhead rest) :
+    pXref (writeXrefTable x size ++ rest)
+      = .ok (some (applyAssigns [] (assigns (tableSecs x size)), space rest)) := by
+  rw [writeXrefTable_eq]
+  have h0 : (tag pXref.XREF_WORD (XREF_KW ++ secsBytes (tableSecs x size) ++ rest)).bind
+      (fun r => (eol r).map (·.2)) = some (secsBytes (tableSecs x size) ++ rest) := by
+    simp [XREF_KW, pXref.XREF_WORD, tag, eol]
+  unfold pXref
+  rw [h0]
+  simp only
+  rw [foldSections_secs (tableSecs x size) _ rest [] false (tableSecs_ok x size hx hs) hr
+    (by have := secsBytes_length (tableSecs x size); simp only [List.length_append]; omega)
+    (Or.inl (tableSecs_ne_nil x size))]
+
 /-- **Cross-reference table round trip (C01/C03).** For every recorded map `x` with `u32`
 offsets and `u16` generations and every `Size ≤ u32::MAX`, followed by any text that does not
 start with a digit (the writer continues with `trailer`): the parser `xref` accepts what
@@ -93,16 +146,7 @@ theorem xref_table_rt (x : XrefMap) (size : Nat) (rest : Bytes)
     ∃ table, pXref (writeXrefTable x size ++ rest) = .ok (some (table, space rest)) ∧
       ∀ n, table.get n = if 1 ≤ n ∧ n < size then normalOf x n else none := by
   refine ⟨applyAssigns [] (assigns (tableSecs x size)), ?_, ?_⟩
-  · rw [writeXrefTable_eq]
-    have h0 : (tag pXref.XREF_WORD (XREF_KW ++ secsBytes (tableSecs x size) ++ rest)).bind
-        (fun r => (eol r).map (·.2)) = some (secsBytes (tableSecs x size) ++ rest) := by
-      simp [XREF_KW, pXref.XREF_WORD, tag, eol]
-    unfold pXref
-    rw [h0]
-    simp only
-    rw [foldSections_secs (tableSecs x size) _ rest [] false (tableSecs_ok x size hx hs) hr
-      (by have := secsBytes_length (tableSecs x size); simp only [List.length_append]; omega)
-      (Or.inl (tableSecs_ne_nil x size))]
+  · exact xref_table_parse x size rest hx hs hr
   · intro n
     unfold tableSecs
     rw [loopSecs_spec x some (size - 1) 1 0 [none] (by intro _; rfl)]
@@ -128,6 +172,13 @@ theorem xref_table_rt_iff (x : XrefMap) (size : Nat) (rest : Bytes)
   cases hg : x.get n with
   | none => simp
   | some p => obtain ⟨a, b⟩ := p; simp
+
+/-- the table read back has one binding per object number (it is built by `insert`) -/
+theorem xref_table_rt_nodup (x : XrefMap) (size : Nat) (rest : Bytes)
+    (hx : XrefMapOk x) (hs : size ≤ 4294967295) (hr : NoDigitAhead rest) :
+    ∃ table, pXref (writeXrefTable x size ++ rest) = .ok (some (table, space rest)) ∧
+      (table.map (·.1)).Nodup :=
+  ⟨_, xref_table_parse x size rest hx hs hr, applyAssigns_nodup _ [] (by simp)⟩
 
 /-- non-vacuity: a sparse map (objects 1, 2 and 5, one with generation 7), `Size = 7`, followed by `trailer` -/
 example : XrefMapOk [(1, (15, 0)), (2, (4000000000, 7)), (5, (99, 65535))] ∧ NoDigitAhead TRAILER_KW := by
